@@ -5,9 +5,11 @@ package main
 
 import (
 	"fmt"
+	"strings"
 	"sync"
 
 	"github.com/apache/arrow-go/v18/arrow/memory"
+	arrowpb "github.com/open-telemetry/otel-arrow/api/experimental/arrow/v1"
 	cfgpkg "github.com/open-telemetry/otel-arrow/pkg/config"
 	"github.com/open-telemetry/otel-arrow/pkg/otel/arrow_record"
 	"go.opentelemetry.io/collector/pdata/plog"
@@ -37,8 +39,13 @@ func optionSet(r *Rng) ([]cfgpkg.Option, string) {
 	return nil, "default"
 }
 
-// one stream: a history generated from its own seed, produced and consumed; returns the canonical keys per batch
-func runStream(seed uint64, yield func(), shared int, copts []arrow_record.Option) (out []string, errs int) {
+// one stream: a history generated from its own seed, produced and consumed; returns the canonical keys per batch.
+// pipe selects how the consumer follows the producer (the decoded stream must be the same in all three):
+//
+//	0  strictly alternating (encode batch b, decode batch b)
+//	1  the consumer lags behind: batch b is decoded only after batch b+lag has been encoded (a queue between them)
+//	2  the consumer runs in its own goroutine, fed through a channel (a transport between exporter and receiver)
+func runStream(seed uint64, yield func(), shared int, copts []arrow_record.Option, pipe int) (out []string, errs int, sched []int) {
 	r := NewRng(seed)
 	g := &OGen{r: r.Fork(), Wide: r.Chance(40), Mono: monoPick(r)}
 	options, _ := optionSet(r)
@@ -62,6 +69,101 @@ func runStream(seed uint64, yield func(), shared int, copts []arrow_record.Optio
 		g.Wide = false
 		mode = shared - 1
 	}
+	type pend struct {
+		bar *arrowpb.BatchArrowRecords
+		sig int
+		pre string // decided on the producer side (error or panic): nothing to decode
+	}
+	var emu sync.Mutex
+	produce := func(data any) (pd pend) {
+		defer func() {
+			if rec := recover(); rec != nil {
+				emu.Lock()
+				errs++
+				emu.Unlock()
+				pd = pend{pre: fmt.Sprint([]string{fmt.Sprint("panic: ", rec)})}
+			}
+		}()
+		var bar *arrowpb.BatchArrowRecords
+		var err error
+		sig := 0
+		switch d := data.(type) {
+		case ptrace.Traces:
+			bar, err = p.BatchArrowRecordsFromTraces(d)
+		case plog.Logs:
+			sig = 1
+			bar, err = p.BatchArrowRecordsFromLogs(d)
+		case pmetric.Metrics:
+			sig = 2
+			bar, err = p.BatchArrowRecordsFromMetrics(d)
+		}
+		if err != nil {
+			emu.Lock()
+			errs++
+			emu.Unlock()
+			return pend{pre: fmt.Sprint([]string(nil))}
+		}
+		return pend{bar: bar, sig: sig}
+	}
+	consume := func(pd pend) string {
+		keys := pd.pre
+		if pd.bar != nil {
+			keys = fmt.Sprint([]string(nil))
+			func() {
+				defer func() {
+					if rec := recover(); rec != nil {
+						emu.Lock()
+						errs++
+						emu.Unlock()
+						keys = fmt.Sprint([]string{fmt.Sprint("panic: ", rec)})
+					}
+				}()
+				fail := func() { emu.Lock(); errs++; emu.Unlock() }
+				switch pd.sig {
+				case 0:
+					tds, err := c.TracesFrom(pd.bar)
+					if err != nil || len(tds) == 0 {
+						fail()
+						return
+					}
+					keys = fmt.Sprint(tracesItems(tds[0]).Keys)
+				case 1:
+					lds, err := c.LogsFrom(pd.bar)
+					if err != nil || len(lds) == 0 {
+						fail()
+						return
+					}
+					keys = fmt.Sprint(logsItems(lds[0]).Keys)
+				case 2:
+					mds, err := c.MetricsFrom(pd.bar)
+					if err != nil || len(mds) == 0 {
+						fail()
+						return
+					}
+					keys = fmt.Sprint(metricsItems(mds[0]).Keys)
+				}
+			}()
+		}
+		return keys + fmt.Sprintf("|reported-inuse=%d", mp.inuse)
+	}
+	lag := 0
+	if pipe == 1 {
+		lag = 1 + int(seed>>7)%nb
+	}
+	var queue []pend
+	nprod := 0
+	var ch chan pend
+	var cdone chan struct{}
+	if pipe == 2 {
+		ch = make(chan pend, nb)
+		cdone = make(chan struct{})
+		go func() {
+			defer close(cdone)
+			for pd := range ch {
+				out = append(out, consume(pd))
+			}
+		}()
+	}
 	for b := 0; b < nb; b++ {
 		sig := mode
 		if mode == 3 {
@@ -77,57 +179,30 @@ func runStream(seed uint64, yield func(), shared int, copts []arrow_record.Optio
 			continue
 		}
 		yield()
-		var keys []string
-		func() {
-			defer func() {
-				if rec := recover(); rec != nil {
-					errs++
-					keys = []string{fmt.Sprint("panic: ", rec)}
-				}
-			}()
-			switch d := data.(type) {
-			case ptrace.Traces:
-				bar, err := p.BatchArrowRecordsFromTraces(d)
-				if err != nil {
-					errs++
-					return
-				}
+		pd := produce(data)
+		sched = append(sched, nprod) // produce message nprod
+		nprod++
+		switch pipe {
+		case 2:
+			ch <- pd
+		default:
+			queue = append(queue, pd)
+			for len(queue) > lag {
 				yield()
-				tds, err := c.TracesFrom(bar)
-				if err != nil || len(tds) == 0 {
-					errs++
-					return
-				}
-				keys = tracesItems(tds[0]).Keys
-			case plog.Logs:
-				bar, err := p.BatchArrowRecordsFromLogs(d)
-				if err != nil {
-					errs++
-					return
-				}
-				yield()
-				lds, err := c.LogsFrom(bar)
-				if err != nil || len(lds) == 0 {
-					errs++
-					return
-				}
-				keys = logsItems(lds[0]).Keys
-			case pmetric.Metrics:
-				bar, err := p.BatchArrowRecordsFromMetrics(d)
-				if err != nil {
-					errs++
-					return
-				}
-				yield()
-				mds, err := c.MetricsFrom(bar)
-				if err != nil || len(mds) == 0 {
-					errs++
-					return
-				}
-				keys = metricsItems(mds[0]).Keys
+				out = append(out, consume(queue[0]))
+				sched = append(sched, -1) // consume the oldest message in flight
+				queue = queue[1:]
 			}
-		}()
-		out = append(out, fmt.Sprint(keys)+fmt.Sprintf("|reported-inuse=%d", mp.inuse))
+		}
+	}
+	for _, pd := range queue {
+		yield()
+		out = append(out, consume(pd))
+		sched = append(sched, -1)
+	}
+	if pipe == 2 {
+		close(ch)
+		<-cdone
 	}
 	return
 }
@@ -204,9 +279,10 @@ func (c *coop) done(id int) {
 }
 
 func runIndep(o opts, out *Output) {
-	out.Imports = "From Verif Require Import Base.ListX."
+	out.Imports = "From Verif Require Import Base.ListX Indep.Alias."
 	r := NewRng(o.seed)
 	stats := map[string]int{}
+	var aliasCases []string
 	for c := 0; c < o.n; c++ {
 		nStreams := 2 + r.Intn(7)
 		seeds := make([]uint64, nStreams)
@@ -223,7 +299,7 @@ func runIndep(o opts, out *Output) {
 		}
 		solo := make([][]string, nStreams)
 		for i, s := range seeds {
-			solo[i], _ = runStream(s, func() {}, shared, sharedConsumerOptions())
+			solo[i], _, _ = runStream(s, func() {}, shared, sharedConsumerOptions(), 0)
 		}
 		copts := sharedConsumerOptions() // one set of option values for all streams of the case
 		conc := make([][]string, nStreams)
@@ -234,7 +310,7 @@ func runIndep(o opts, out *Output) {
 			go func(i int, s uint64) {
 				defer wg.Done()
 				<-gate
-				conc[i], _ = runStream(s, func() {}, shared, copts)
+				conc[i], _, _ = runStream(s, func() {}, shared, copts, []int{2, 0, 1}[(c+i)%3])
 			}(i, s)
 		}
 		close(gate)
@@ -254,6 +330,7 @@ func runIndep(o opts, out *Output) {
 			schedSeed := r.U64()
 			co := newCoop(NewRng(schedSeed), nStreams, []int{5, 25, 60}[rep])
 			coopOut := make([][]string, nStreams)
+			coopSched := make([][]int, nStreams)
 			var wg2 sync.WaitGroup
 			for i, s := range seeds {
 				wg2.Add(1)
@@ -261,7 +338,7 @@ func runIndep(o opts, out *Output) {
 					defer wg2.Done()
 					<-co.wake[i]
 					defer co.done(i)
-					coopOut[i], _ = runStream(s, func() { co.yield(i) }, shared, copts)
+					coopOut[i], _, coopSched[i] = runStream(s, func() { co.yield(i) }, shared, copts, (rep+i)%2)
 				}(i, s)
 			}
 			co.wake[0] <- struct{}{}
@@ -273,12 +350,53 @@ func runIndep(o opts, out *Output) {
 						map[string]any{"seed": o.seed, "case": c, "stream": i, "stream_seed": seeds[i], "schedule_seed": schedSeed, "switch_pct": co.pct})
 				}
 			}
+			for i := range seeds {
+				// the produce/consume schedule of the stream and which produced message each decoded one equals (by its solo
+				// decoding): the message-ownership model (Indep/Alias.v) must decode the same sequence
+				if len(aliasCases) >= 400 || len(coopSched[i]) == 0 {
+					continue
+				}
+				var ops, obs []string
+				k := 0
+				for _, e := range coopSched[i] {
+					if e >= 0 {
+						ops = append(ops, fmt.Sprintf("Produce [%d]", e))
+						continue
+					}
+					ops = append(ops, "Consume")
+					id := 9999
+					if k < len(coopOut[i]) {
+						if k < len(solo[i]) && coopOut[i][k] == solo[i][k] {
+							id = k
+						} else {
+							for j := range solo[i] {
+								if solo[i][j] == coopOut[i][k] {
+									id = j
+									break
+								}
+							}
+						}
+					}
+					obs = append(obs, fmt.Sprintf("[%d]", id))
+					k++
+				}
+				aliasCases = append(aliasCases, fmt.Sprintf(" ([%s], [%s])", strings.Join(ops, "; "), strings.Join(obs, "; ")))
+			}
 			stats["sched_points"] += co.points
 			stats["sched_switches"] += co.switches
 		}
 		stats["streams"] += nStreams
 		out.AddCase(map[string]any{"case": c, "streams": nStreams, "shared_vocabulary_signal": shared, "same_as_solo": same}, true, fmt.Sprintf("streams=%d shared=%d", nStreams, shared))
 	}
+	stats["alias_cases"] = len(aliasCases)
+	out.Coq.WriteString("Definition alias_cases : list (list op * list (list N)) := [\n" + strings.Join(aliasCases, ";\n") + "\n].\n")
+	out.Coq.WriteString(`(* every stream's produce/consume schedule (alternating or lagging) run through the message-ownership model: what the real
+   consumer decoded at each Consume step is the message the model says it reads *)
+Definition alias_mismatch := Eval vm_compute in
+  failing (fun c : list op * list (list N) => list_eqb (list_eqb N.eqb) (decoded (run false (fst c))) (snd c)) alias_cases.
+Print alias_mismatch.
+`)
+	out.Lists = append(out.Lists, "alias_mismatch")
 	out.Extra["stats"] = stats
 }
 
@@ -292,6 +410,9 @@ func runMemory(o opts, out *Output) {
 	for c := 0; c < o.n; c++ {
 		g := &OGen{r: r.Fork(), Wide: r.Chance(40), Mono: monoPick(r)}
 		options, optName := optionSet(r)
+		if r.Bool() {
+			options, optName = randomOptions(r)
+		}
 		pool := memory.NewCheckedAllocator(memory.NewGoAllocator())
 		options = append(options, cfgpkg.WithAllocator(pool))
 		p := arrow_record.NewProducerWithOptions(options...)
@@ -326,22 +447,22 @@ func runMemory(o opts, out *Output) {
 				switch d := data.(type) {
 				case ptrace.Traces:
 					before, _ = tm.MarshalTraces(d)
+					defer func() { after, _ = tm.MarshalTraces(d) }()
 					if _, err := p.BatchArrowRecordsFromTraces(d); err != nil {
 						class = "error"
 					}
-					after, _ = tm.MarshalTraces(d)
 				case plog.Logs:
 					before, _ = lm.MarshalLogs(d)
+					defer func() { after, _ = lm.MarshalLogs(d) }()
 					if _, err := p.BatchArrowRecordsFromLogs(d); err != nil {
 						class = "error"
 					}
-					after, _ = lm.MarshalLogs(d)
 				case pmetric.Metrics:
 					before, _ = mm.MarshalMetrics(d)
+					defer func() { after, _ = mm.MarshalMetrics(d) }()
 					if _, err := p.BatchArrowRecordsFromMetrics(d); err != nil {
 						class = "error"
 					}
-					after, _ = mm.MarshalMetrics(d)
 				}
 			}()
 			stats["batch_"+class]++
